@@ -13,6 +13,36 @@ def texRel : Rel → Int → Int → Option Bool
   | .eq, a, b => some (decide (a = b))
   | .bad, _, _ => none
 
+/-! TeX's ⟨number⟩ / ⟨dimen⟩ (TeXbook ch. 24): optional signs, then an unsigned value; the result is
+    negated once for every `-`, i.e. negated iff the number of `-` signs is odd. -/
+
+def minusCount : Operand → Nat
+  | .neg o => minusCount o + 1
+  | _ => 0
+
+def unsignedValue (s : St) : Operand → Int
+  | .neg o => unsignedValue s o
+  | .lit n => n
+  | .cnt c => s.cnt c
+  | .mac n => n
+  | .reg r => s.reg r
+
+def texNumber (s : St) (o : Operand) : Int :=
+  if minusCount o % 2 = 0 then unsignedValue s o else - unsignedValue s o
+
+def dMinusCount : DOperand → Nat
+  | .neg o => dMinusCount o + 1
+  | _ => 0
+
+def dUnsignedValue (s : St) : DOperand → Int
+  | .neg o => dUnsignedValue s o
+  | .lit n => n
+  | .reg d => s.dreg d
+  | .coef k d => k * s.dreg d
+
+def texDimen (s : St) (o : DOperand) : Int :=
+  if dMinusCount o % 2 = 0 then dUnsignedValue s o else - dUnsignedValue s o
+
 /-- `\ifodd n`: true iff `n` is odd (also for negative `n`) -/
 def texOdd (n : Int) : Bool := n.natAbs % 2 == 1
 
